@@ -84,6 +84,14 @@ CHECKS = {
                 technique="enumeration of entry point x argument form x writability x memory order x outcome (incl. injected faults) x execution mode with byte-wise before/after snapshots",
                 text="All five entry points, every array-valued argument, writable and read-only, C and Fortran order, success and four failure outcomes, eps 0/1e-2, interpreted and JIT: arguments byte-identical afterwards, read-only variants return the same result.",
                 note="trusted: snapshots cover bytes, shape, strides, flags and list identity; the enumeration is over forms, data values are fixed"),
+    "C15": dict(engine=E4, cat="exploration", ref="§3.5, §4 C15",
+                technique="mode runner: the same exhaustively enumerated kernel inputs and scripted complete runs executed in separate JIT / JIT-disabled / numba-absent processes and at numba thread counts 1..16, compared case by case; parallel-loop iteration order permuted exhaustively in interpreted modes",
+                text="Every small table through the labelling kernel, the likelihood table over shapes x memory layouts, and complete scripted runs for every 4th (thorough: every) initial labelling are computed in three execution modes and five thread counts and must agree (labels and integer costs identically, likelihoods within rounding and with the reference); iteration-order independence of the parallel loop is enumerated over all permutations for T<=5.",
+                note="trusted: interleaving inside numba's compiled parallel loop is not controlled (thread count and iteration order are)"),
+    "C20": dict(engine=E4, cat="fault_enumeration", ref="§3.4, §4 C20",
+                technique="fault enumeration: an exception injected at every (round, cluster) optimisation task and every (round, phase) on real and virtual pools in three pool modes, each scenario in a fresh process with a watchdog, /proc child scan while the exception is held, and a clean follow-up call",
+                text="Every fault point r<3 x k<3 x {Pool(1), multiprocessing P=K, P=2, virtual pool}, every phase x round, no-donor and wrong-kind inputs: the call raises the expected error (type and message), returns nothing, does not hang, leaves no live worker while the exception is referenced, and a clean call afterwards equals the clean reference bitwise.",
+                note="trusted: /proc scan for live children; workers killed outright are out of scope (CPython Pool blocks forever)"),
 }
 
 NOT_YET = "check not built yet in this session (work in progress; see DESIGN.md)"
